@@ -70,6 +70,20 @@ pub trait ParallelIterator: Sized {
     {
         MapWith { base: self, init, f: map_op }
     }
+    /// `init` runs once per leaf (rayon: once per job), the value is threaded through the leaf's items
+    fn map_init<F, INIT, T, R>(self, init: INIT, map_op: F) -> MapInit<Self, INIT, F>
+    where
+        F: Fn(&mut T, Self::Item) -> R,
+        INIT: Fn() -> T,
+    {
+        MapInit { base: self, init, f: map_op }
+    }
+    fn update<F>(self, update_op: F) -> Update<Self, F>
+    where
+        F: Fn(&mut Self::Item),
+    {
+        Update { base: self, f: update_op }
+    }
     fn inspect<F>(self, f: F) -> Inspect<Self, F>
     where
         F: Fn(&Self::Item),
@@ -169,6 +183,39 @@ pub trait ParallelIterator: Sized {
                 p.m_each(lo, hi, &mut |x| op(&mut t, x))
             },
             &mut |_, _| (),
+        )
+    }
+    fn for_each_init<OP, INIT, T>(self, init: INIT, op: OP)
+    where
+        OP: Fn(&mut T, Self::Item),
+        INIT: Fn() -> T,
+    {
+        drive(
+            &self,
+            &mut |p, lo, hi| {
+                let mut t = init();
+                p.m_each(lo, hi, &mut |x| op(&mut t, x))
+            },
+            &mut |_, _| (),
+        )
+    }
+    /// stops feeding a leaf after its first error; the error of the first failing leaf IN TREE ORDER is returned
+    fn try_for_each<OP, E>(self, op: OP) -> Result<(), E>
+    where
+        OP: Fn(Self::Item) -> Result<(), E>,
+    {
+        drive(
+            &self,
+            &mut |p, lo, hi| {
+                let mut r: Result<(), E> = Ok(());
+                p.m_each(lo, hi, &mut |x| {
+                    if r.is_ok() {
+                        r = op(x);
+                    }
+                });
+                r
+            },
+            &mut |a, b| a.and(b),
         )
     }
     fn count(self) -> usize {
@@ -474,6 +521,10 @@ pub trait IndexedParallelIterator: ParallelIterator {
     fn take(self, n: usize) -> Window<Self> {
         let len = self.m_len();
         Window { base: self, off: 0, len: n.min(len) }
+    }
+    fn step_by(self, step: usize) -> StepBy<Self> {
+        assert!(step != 0, "step must not be zero");
+        StepBy { base: self, step }
     }
     fn chunks(self, chunk_size: usize) -> ChunksOf<Self> {
         assert!(chunk_size != 0, "chunk_size must not be zero");
@@ -1220,3 +1271,64 @@ impl<I: IndexedParallelIterator> ParallelIterator for ChunksOf<I> {
     }
 }
 impl<I: IndexedParallelIterator> IndexedParallelIterator for ChunksOf<I> {}
+
+pub struct MapInit<I, INIT, F> {
+    base: I,
+    init: INIT,
+    f: F,
+}
+impl<I: ParallelIterator, INIT: Fn() -> T, T, F: Fn(&mut T, I::Item) -> R, R> ParallelIterator for MapInit<I, INIT, F> {
+    type Item = R;
+    forward_len!();
+    fn m_each(&self, lo: usize, hi: usize, sink: Sink<'_, R>) {
+        let mut t = (self.init)();
+        self.base.m_each(lo, hi, &mut |x| sink((self.f)(&mut t, x)))
+    }
+}
+impl<I: IndexedParallelIterator, INIT: Fn() -> T, T, F: Fn(&mut T, I::Item) -> R, R> IndexedParallelIterator for MapInit<I, INIT, F> {}
+
+pub struct Update<I, F> {
+    base: I,
+    f: F,
+}
+impl<I: ParallelIterator, F: Fn(&mut I::Item)> ParallelIterator for Update<I, F> {
+    type Item = I::Item;
+    forward_len!();
+    fn m_each(&self, lo: usize, hi: usize, sink: Sink<'_, I::Item>) {
+        self.base.m_each(lo, hi, &mut |mut x| {
+            (self.f)(&mut x);
+            sink(x)
+        })
+    }
+}
+impl<I: IndexedParallelIterator, F: Fn(&mut I::Item)> IndexedParallelIterator for Update<I, F> {}
+
+pub struct StepBy<I> {
+    base: I,
+    step: usize,
+}
+impl<I: IndexedParallelIterator> ParallelIterator for StepBy<I> {
+    type Item = I::Item;
+    fn m_len(&self) -> usize {
+        (self.base.m_len() + self.step - 1) / self.step
+    }
+    fn m_each(&self, lo: usize, hi: usize, sink: Sink<'_, I::Item>) {
+        for i in lo..hi {
+            self.base.m_each(i * self.step, i * self.step + 1, sink);
+        }
+    }
+}
+impl<I: IndexedParallelIterator> IndexedParallelIterator for StepBy<I> {}
+
+/// `iter.par_bridge()`: the sequential iterator is drained by the workers one item at a time; every item is its own leaf
+pub trait ParallelBridge: Sized {
+    fn par_bridge(self) -> MaxLen<VecIter<Self::Item>>
+    where
+        Self: Iterator;
+}
+impl<T: Iterator> ParallelBridge for T {
+    fn par_bridge(self) -> MaxLen<VecIter<T::Item>> {
+        self.collect::<Vec<_>>().into_par_iter().with_max_len(1)
+    }
+}
+
